@@ -49,6 +49,8 @@ def paths(e, with_index_paths=True):
                         m = m.value
             return
         if isinstance(n, ast.Call):
+            if isinstance(n.func, ast.Name) and n.func.id in ("len", "layout_len", "bits_for", "log2_int"):
+                return          # width arithmetic reads no signal value
             if isinstance(n.func, ast.Attribute):
                 rec(n.func.value)
             for a in n.args:
@@ -186,8 +188,30 @@ class Inliner:
                 mapping[at] = r
         return B.subst(f, mapping) if mapping else f
 
-    def gformula(self, a, depth=0, stack=(), inline=True):
+    def _later(self, a):
+        """Later assignments to the same target in the same scope (they override `a`: last wins)."""
+        if not hasattr(a, "target") or a.kind not in ("eq", "nextvalue"):
+            return []
+        out = []
+        seen = False
+        for b in self.fx.assigns:
+            if b is a:
+                seen = True
+                continue
+            if not seen or b.kind not in ("eq", "nextvalue"):
+                continue
+            if b.domain != a.domain or b.state != a.state or b.t != a.t or b.loops != a.loops:
+                continue
+            if not all(pg in a.pyguards for pg in b.pyguards):
+                continue
+            out.append(b)
+        return out
+
+    def gformula(self, a, depth=0, stack=(), inline=True, effective=True):
         f = B.guard_formula(a.guards)
+        if effective and depth == 0:
+            for b in self._later(a):
+                f = B.And(f, B.Not(B.guard_formula(b.guards)))
         if inline:
             f = self.inline(f, depth, stack)
         st = getattr(a, "state", None)
